@@ -22,13 +22,13 @@ MC_QUICK = ["ChildFirst_mc_q_stops3.cfg", "ChildFirst_mc_q_all2.cfg", "ChildFirs
             "ChildFirst_mc_q_mixed2.cfg", "ChildFirst_live_q.cfg", "ChildFirst_live_q_going.cfg"]
 MC_THOROUGH = ["ChildFirst_mc_t_stops3.cfg", "ChildFirst_mc_t_stops4.cfg", "ChildFirst_mc_t_mixed2.cfg",
                "ChildFirst_mc_t_all2.cfg", "ChildFirst_mc_t_mixed3.cfg", "ChildFirst_live_t.cfg",
-               "ChildFirst_live_t_going.cfg", "ChildFirst_live_t_unreduced.cfg"] + MC_QUICK[:2]
+               "ChildFirst_live_t_going.cfg", "ChildFirst_live_t_unreduced.cfg"] + MC_QUICK[:1]
 MC_DEVIATION = "ChildFirst_live_nodone.cfg"
 
 # (gen cfg, slices)
 GEN_QUICK = [("ChildFirstGen_q_flat3.cfg", 1), ("ChildFirstGen_q_mixed2.cfg", 1), ("ChildFirstGen_q_sample3.cfg", 1)]
-GEN_THOROUGH = [("ChildFirstGen_t_flat3.cfg", 4), ("ChildFirstGen_t_bad3.cfg", 1), ("ChildFirstGen_t_mixed2.cfg", 3),
-                ("ChildFirstGen_t_sample3.cfg", 1), ("ChildFirstGen_t_flat4.cfg", 3)]
+GEN_THOROUGH = [("ChildFirstGen_t_flat3.cfg", 4), ("ChildFirstGen_t_bad3.cfg", 1), ("ChildFirstGen_t_mixed2.cfg", 2),
+                ("ChildFirstGen_t_sample3.cfg", 1), ("ChildFirstGen_t_flat4.cfg", 1)]
 
 
 def _shards(items, n):
@@ -341,7 +341,7 @@ def run(ctx):
         return _finish_mc(ctx, mc_future, pool, T)
 
     # ---- seeded random larger graphs (4..8 ids), same Judge
-    nrand = 2000 if q else 30000
+    nrand = 2000 if q else 20000
     rrecs = execute_random(ctx, nrand)
     rcases = [r["case"] for r in rrecs]
     for c in rcases:
@@ -358,7 +358,7 @@ def run(ctx):
     # ---- C -> S
     judge.first = True
     judge.divs = []
-    trace_stage(ctx, cases, 600 if q else 8000, judge)
+    trace_stage(ctx, cases, 600 if q else 6000, judge)
 
     # ---- design level
     T("traces (%d validated)" % ctx.traces)
